@@ -14,6 +14,7 @@ import (
 	"sort"
 	"strings"
 	"sync"
+	"time"
 
 	gpb "github.com/openconfig/gnmi/proto/gnmi"
 	"github.com/openconfig/goyang/pkg/yang"
@@ -22,6 +23,7 @@ import (
 	"google.golang.org/protobuf/encoding/prototext"
 	"google.golang.org/protobuf/proto"
 	"pgregory.net/rapid"
+	"verifharness/ev"
 	"verifharness/model"
 	"verifharness/th"
 	"verifharness/variants"
@@ -419,6 +421,29 @@ func catch(f func()) (p *panicInfo) {
 	}()
 	f()
 	return nil
+}
+
+// hangLimit is how long a single call of the library may run before the process gives up on it. The calls
+// of C20 take microseconds to milliseconds; the limit is there so that an input on which the library does
+// not return is written down (the generated input would otherwise be lost when the run is killed at its
+// deadline). Not returning is reported as INCONCLUSIVE by this watchdog, never as a violation: a wall
+// clock is not an oracle. Known non-returning inputs have their own witness (see F96).
+const hangLimit = 120 * time.Second
+
+// watched is catch with the watchdog armed.
+func watched(describe func() string, f func()) *panicInfo {
+	tm := time.AfterFunc(hangLimit, func() {
+		d := describe()
+		if dir := os.Getenv("VERIF_OUT"); dir != "" {
+			os.WriteFile(filepath.Join(dir, fmt.Sprintf("C20.%d.hang.txt", ev.Shard())), []byte(d), 0o644)
+		}
+		fmt.Printf("INCONCLUSIVE: a call has not returned after %v; input: %s\n", hangLimit, th.Trunc(d, 4000))
+		buf := make([]byte, 1<<20)
+		fmt.Printf("%s\n", buf[:runtime.Stack(buf, true)])
+		os.Exit(2)
+	})
+	defer tm.Stop()
+	return catch(f)
 }
 
 // ---- misc ---------------------------------------------------------------------------------------------
